@@ -30,8 +30,8 @@ type mprog struct {
 	Root []mstmt `json:"root"`
 }
 
-var mountPrefixes = []string{"/", "/api", "/api/", "/:v", "/a/b", "/Api", "/ab", "/abc"}
-var mountPaths = []string{"/", "/a", "/ab", "/abc", "/x", "/:p", "/a/:p", "/*", "/abc/d", "/:p?", "/api", "/a/"}
+var mountPrefixes = []string{"/", "/api", "/api/", "/:v", "/a/b", "/Api", "/ab", "/abc", "/:Ver"}
+var mountPaths = []string{"/", "/a", "/ab", "/abc", "/x", "/:p", "/a/:p", "/*", "/abc/d", "/:p?", "/api", "/a/", "/:pId", "/a/:Key"}
 
 type mgen struct {
 	r      *gen.Rand
@@ -250,7 +250,7 @@ func buildSpelled(p *mprog, tr *mtrace) *fiber.App {
 		for i := range body {
 			s := body[i]
 			if s.Kind == "group" {
-				build(prefix+s.Prefix, s.Body)
+				build(joinPrefix(prefix, s.Prefix), s.Body)
 				continue
 			}
 			switch s.Kind {
@@ -260,13 +260,21 @@ func buildSpelled(p *mprog, tr *mtrace) *fiber.App {
 					s.Path = prefix
 				}
 			default:
-				s.Path = prefix + s.Path
+				s.Path = joinPrefix(prefix, s.Path)
 			}
 			mApplyRoute(app, &s, tr)
 		}
 	}
 	build("", p.Root)
 	return app
+}
+
+// joinPrefix spells the full path of `path` under `prefix`: exactly one slash between them.
+func joinPrefix(prefix, path string) string {
+	if prefix == "" {
+		return path
+	}
+	return strings.TrimRight(prefix, "/") + "/" + strings.TrimLeft(path, "/")
 }
 
 func subTrace(ids []mrec, inSub map[int]bool) bool {
@@ -479,10 +487,14 @@ func runMount(e *ev.Env) {
 			var out []mstmt
 			for i := 0; i < n && g.budget > 0; i++ {
 				if depth < 3 && r.Chance(1, 3) {
-					out = append(out, mstmt{Kind: "group", Prefix: gen.Pick(r, []string{"/api", "/:v", "/a/b", "/Api", "/ab", "/abc"}), Body: body(depth + 1)})
+					out = append(out, mstmt{Kind: "group", Prefix: gen.Pick(r, []string{"/api", "/:v", "/a/b", "/Api", "/ab", "/abc", "/api/", "/a/b/", "/:Ver"}), Body: body(depth + 1)})
 					continue
 				}
 				s := g.route(depth > 0)
+				// paths may be spelled without their leading slash ("users" under "/api/")
+				if depth > 0 && len(s.Path) > 1 && r.Chance(1, 4) {
+					s.Path = s.Path[1:]
+				}
 				out = append(out, s)
 			}
 			return out
